@@ -127,6 +127,8 @@ int x509_time_from_der(time_t *tv, const uint8_t **in, size_t *inlen)
 		}
 		break;
 	default:
+		// no time value here (optional field absent): say so in *tv as well
+		*tv = -1;
 		return 0;
 	}
 	return 1;
